@@ -334,7 +334,7 @@ def shrink(harness, suite, div, scratch, budget=60):
 # known findings
 # ---------------------------------------------------------------------------------------------
 
-TIMING_SUITES = {"cluster", "halt", "lease", "proxy", "api", "backup", "goctx"}
+TIMING_SUITES = {"cluster", "halt", "lease", "proxy", "api", "backup", "goctx", "snapsched"}
 
 
 def load_known(prop):
